@@ -203,7 +203,10 @@ def run(ctx):
     # ---- 4. serializer arguments
     q = segno.make('SERIALIZER', error='M')
     kinds = ['svg', 'png', 'eps', 'pdf', 'txt', 'pbm', 'pam', 'ppm', 'xpm', 'xbm', 'tex', 'ans']
-    bad_colors = ['#12', '#1', '', 'nocolor', '#gggggg', '#12345', '#1234567', (1, 2), (1, 2, 3, 4, 5), (256, 0, 0), (-1, 0, 0), (0, 0, 0, 256)]
+    bad_colors = ['#12', '#1', '', 'nocolor', '#gggggg', '#12345', '#1234567', (1, 2), (1, 2, 3, 4, 5), (256, 0, 0), (-1, 0, 0), (0, 0, 0, 256),
+                  # strings that int(pair, 16) would accept although they are not hexadecimal digit strings
+                  '#+f+f+f', '# 1 1 1', '#1 2 3 ', '#-1-1-1', '#\uff11\uff11\uff12\uff12\uff13\uff13', '#+1+2+3+4', '# f f f f',
+                  '#\u0661\u0661\u0662\u0662\u0663\u0663', '#1_1_1_1_', '#0x10x10x1', '#\t1\t1\t1', '#12345\n', '# 12', '#+12', '#12 4']
     good_colors = ['#123', 'red', 'RED', '#aAbBcC', (1, 2, 3), '#1234', '#11223344', (1, 2, 3, 4)]
     for kind in kinds:
         for kw, must_fail in ([({'scale': 0}, True), ({'scale': -1}, True), ({'border': -1}, True), ({'border': 1.5}, True),
